@@ -86,6 +86,45 @@ def kinds(ev):
     return [k for k, _ in ev]
 
 
+def utility_counter_memo(rep, rmod, rule):
+    from . import sem as _sem
+    f = find_def(rmod, 'Components._utility_registrations_cache')
+    MEMO = 'self._v_utility_registrations_cache'
+    FRESH = '_UtilityRegistrations(self.utilities, self._utility_registrations)'
+    probs, hit, miss = [], 0, 0
+
+    def ident(ps, a, b):
+        for x, y in ((a, b), (b, a)):
+            v = ps.facts.get('%s is %s' % (x, y))
+            if v is not None:
+                return v
+        return None
+    for ps in _sem.normal(_sem.summaries(f)):
+        r = _sem.nt(ps.ret)
+        sts = [(_sem.nt(e.r), _sem.nt(e.val)) for e in ps.stores()]
+        if r == MEMO and not sts:
+            hit += 1
+            if ps.facts.get('%s is None' % MEMO) is not False:
+                probs.append('the memo is reused without testing that there is one')
+            if ident(ps, MEMO + '._utilities', 'self.utilities') is not True:
+                probs.append('the memo is reused without having established that it refers '
+                             'to the current utilities registry')
+            if ident(ps, MEMO + '._utility_registrations',
+                     'self._utility_registrations') is not True:
+                probs.append('the memo is reused without having established that it refers '
+                             'to the current listing')
+        else:
+            miss += 1
+            if sts != [(MEMO, FRESH)] or r not in (FRESH, MEMO):
+                probs.append('a miss path stores %s and returns `%s`' % (sts[:1], r[:50]))
+    if not (hit and miss):
+        probs.append('hit paths %d, miss paths %d' % (hit, miss))
+    rep.check(rule, 'Components._utility_registrations_cache', not probs,
+              'memo reused only for the current (utilities, listing) pair; rebuilt from the '
+              'current pair otherwise' if not probs else {'problems': sorted(set(probs))[:3]},
+              construct='counter-memo', node=f)
+
+
 def run(rep):
     repo = rep.repo
     mod = repo.module('registry.py')
@@ -131,6 +170,11 @@ def run(rep):
              'drops exactly that interface from the extendor index (never a base that is '
              'still registered), and subscribed() answers by membership of the leaf '
              '(C04 R04.3, C09 R09.1)', floor=3)
+    rep.rule('R16.8', 're-initialisation: the per-(provided, component) counter object is '
+             'memoised on the Components object and is only reused while it still refers '
+             'to the CURRENT utilities registry and the CURRENT listing (Components.__init__ '
+             're-run replaces both): the memo hit path has established both identities, '
+             'every other path builds a fresh one from the current pair', floor=1)
     rep.decline('"every query answers as registries holding exactly the listed '
                 'registrations" and "rebuildUtilityRegistryFromLocalCache finds '
                 'nothing to repair" for arbitrary histories')
@@ -251,6 +295,7 @@ def run(rep):
     # IS that object (the listing is updated by equality-free replacement: an
     # equal-but-distinct factory must reach the registry as well)
     mutators.register_same_value(rep, 'R16.6', amod)
+    utility_counter_memo(rep, mod, 'R16.8')
     shared.extendor_index(rep, 'R16.7', amod)
     from .C09 import subscribed_membership
     subscribed_membership(rep, amod, 'R16.7')
